@@ -122,7 +122,12 @@ func ordAPI[K interface{ ~int | ~string | ~float64 }](s *listz.SkipList[K, int])
 			return
 		},
 		Len: s.Len, Keys: s.Keys, Values: s.Values, Range: s.Range,
-		All:            func(f func(K, int) bool) { s.All()(f) },
+		All: func(f func(K, int) bool) {
+			seq := s.All()
+			n := 0
+			seq(func(K, int) bool { n++; return n < 2 }) // a first, interrupted pass over the same sequence value
+			seq(f)
+		},
 		RangeWithStart: s.RangeWithStart, RangeWithRange: s.RangeWithRange,
 	}
 }
@@ -155,7 +160,12 @@ func cmpAPI(s *listz.SkipListWithCmp[int, int], cmp func(a, b int) int) api[int]
 			return
 		},
 		Len: s.Len, Keys: s.Keys, Values: s.Values, Range: s.Range,
-		All:            func(f func(int, int) bool) { s.All()(f) },
+		All: func(f func(int, int) bool) {
+			seq := s.All()
+			n := 0
+			seq(func(int, int) bool { n++; return n < 2 })
+			seq(f)
+		},
 		RangeWithStart: s.RangeWithStart, RangeWithRange: s.RangeWithRange,
 	}
 }
